@@ -7,8 +7,29 @@ import Mathlib.Algebra.Order.Field.Rat
 /-!
 # C06 — returned matchings certify the reported bottleneck / Wasserstein distance
 
-Part 1 (this section): the certificate checker `Rows.checkRows` is sound against the
-partial-matching specification `Spec.PM`.  Nothing here depends on how the rows were produced.
+Statement (properties.jsonl): with `matching=True` the distance is the same as without it and the
+returned rows certify it — every point of each diagram is in exactly one row (paired with a point of
+the other diagram or with the diagonal, −1), the third entry of a row is the cost of that pairing,
+and the maximum (bottleneck) / sum (Wasserstein) of the third entries is the reported distance; an
+empty diagram is the one-point diagram `[(0,0)]`, index 0.  Any optimal matching is acceptable.
+
+What is proved here, for diagrams of every size and every cost rule `(pairCost, diagCost)` over any
+linear order / commutative monoid, then instantiated with C07's two cost systems:
+
+1. **checker soundness** — `checkRows_sound_bn/ws`, `certificate_is_optimal_bn/ws`,
+   `rows_witness_attained_bn/ws`, `structOk_sound`: rows accepted by `Rows.checkRows` ARE a partial
+   matching `PM (Fin M) (Fin N)` (placeholder-adjusted sizes) with `MaxLE … d` and one pairing
+   `= d`, resp. `sumCost = Σ rows`; with C01/C02's `IsBottleneck`/`IsMinSum` they are optimal.
+   `checkBnRat_certifies` is this statement for the very function the driver runs (`cert.rows.bn`).
+2. **extraction** — `extractRows_bn_accepted`, `extractRows_ws_accepted`, `bn_rows_certify`,
+   `ws_rows_certify`, `extracted_rows_pass_checkRows`: for EVERY perfect matching `σ` of the finite
+   entries of the augmented matrix (so for whatever Hopcroft–Karp / `linear_sum_assignment` return
+   under any hash seed) the two loops return rows the checker accepts; max = least feasible
+   threshold, sum = Σ selected entries.
+3. `matching_flag_irrelevant_bn/ws`, `empty_as_origin`.
+
+Not proved here: that the reported distance is the minimum over all partial matchings (C01/C02).
+Exact arithmetic only: float rounding is covered by the harness' tolerances, not by a theorem.
 -/
 namespace PersimVerif.C06
 open PersimVerif.Rows PersimVerif.Spec
